@@ -16,6 +16,9 @@ compile=True/False, lookups interleaved or not) with depth <= 5 and hostile lite
 
 import itertools
 
+import threading
+
+import falcon.routing.compiled as _compiled_module
 from falcon.routing import CompiledRouter
 from falcon.routing.compiled import UnacceptableRouteError
 from falcon.routing.converters import BaseConverter
@@ -148,6 +151,61 @@ def make_tagger(prefix, veto_first):
 TaggerA, TaggerB = make_tagger('A:', 'a'), make_tagger('B:', 'b')
 
 
+class LeakedLock(Exception):
+    """A lock of the router is still held although no call is in progress (single-threaded check)."""
+
+
+class GuardLock:
+    """Stands in for threading.Lock inside falcon.routing.compiled: this check is single-threaded, so a
+    lock that cannot be taken at once will never be released; report it instead of blocking forever."""
+
+    def __init__(self):
+        self._real = threading.Lock()
+
+    def acquire(self, blocking=True, timeout=-1):
+        if self._real.acquire(False):
+            return True
+        if not blocking:
+            return False
+        raise LeakedLock('the compile lock is still held from an earlier call')
+
+    def release(self):
+        self._real.release()
+
+    def locked(self):
+        return self._real.locked()
+
+    def __enter__(self):
+        return self.acquire()
+
+    def __exit__(self, *exc):
+        self.release()
+
+
+_compiled_module.Lock = GuardLock       # CompiledRouter.__init__ looks the name up at call time
+
+
+class BackendNotReady(Exception):
+    pass
+
+
+class FlakyConv(BaseConverter):
+    """A converter whose constructor fails on the k-th instantiation from now on (armed by the check):
+    add_route validates with one instance, every (re)compilation creates new ones."""
+    countdown = None
+
+    def __init__(self, tag='F'):
+        if FlakyConv.countdown is not None:
+            FlakyConv.countdown -= 1
+            if FlakyConv.countdown <= 0:
+                FlakyConv.countdown = None
+                raise BackendNotReady('injected: converter backend not ready')
+        self._tag = tag
+
+    def convert(self, value):
+        return None if value.startswith('n') else self._tag + ':' + value
+
+
 class PluginConv(BaseConverter):
     """A converter that runs user code once while the lookup that called it is still in flight
     (lazy route registration, a nested lookup).  `hook` is armed by the check for one lookup."""
@@ -250,6 +308,7 @@ def make_router(profile, late=False):
     conv['tagA'] = TaggerA
     conv['tagB'] = TaggerB
     conv['plug'] = PluginConv
+    conv['flaky'] = FlakyConv
     if profile == 'alt':
         conv['int'] = HexIntConv
         conv['veto'] = AltVetoConv
@@ -393,6 +452,33 @@ class World:
                                               'tree-after-nested-call': summary(want_new)}))
         return True, problems
 
+    def faulty_find(self, path, fault):
+        """A lookup during which the (re)compilation fails: fault = k (the k-th converter instantiation
+        raises) or 'unregister' (the converter is missing from this router's options during the call).
+        The outcome of this lookup itself is user-fault territory and is not judged, except that it
+        must come back; the lookups that follow are judged as usual.  -> what happened."""
+        conv = self.router.options.converters
+        saved = None
+        if fault == 'unregister':
+            saved = conv.data.pop('flaky', None)
+        else:
+            FlakyConv.countdown = int(fault)
+        try:
+            try:
+                self.router.find(path)
+                out = 'returned'
+            except LeakedLock:
+                out = 'leaked-lock'
+            except Exception as ex:  # noqa
+                out = 'raised:' + type(ex).__name__
+        finally:
+            FlakyConv.countdown = None
+            if saved is not None:
+                conv['flaky'] = saved
+        self.ops.append(['faulty-find', path, fault, out])
+        self.sig = None
+        return out
+
     def signature(self):
         if self.sig is None:
             self.sig = h64([o[:3] + o[5:6] for o in self.ops])
@@ -419,6 +505,8 @@ def rebuild(ops, skip=()):
             w.add(None, op[1], op[2], fault=op[5] if len(op) > 5 else None)
         elif op[0] == 'nested':
             w.nested_lookup(None, op[1], op[2], op[3], op[4])
+        elif op[0] == 'faulty-find':
+            w.faulty_find(op[1], op[2])
         else:
             w.ops.append(list(op))
             try:
@@ -1108,6 +1196,101 @@ def reentrant(rec):
     rec.count('reentrant.done')
 
 
+# ---------------------------------------------------------------- faults while the finder is (re)generated
+
+FAULT_SETS = [
+    ['/s/{a1:flaky}'],
+    ['/s/{a1:flaky}/x', '/t/{b1:flaky("Y")}-{c1:flaky}'],
+    ['/{a0:int}/s', '/s/{b1:flaky}', '/s/lit'],
+]
+
+
+def compile_faults(rec):
+    """A lookup whose delayed (re)compilation fails because of user code - the k-th converter
+    instantiation raises, or the converter is missing from the router's options for that one call -
+    once or twice in a row, on the first compilation or on a recompilation after a further add.  That
+    lookup is not judged (it must only come back); every later lookup must follow the template tree."""
+    idx = 0
+    for templates in FAULT_SETS:
+        n_inst = sum(t.count(':flaky') for t in templates)
+        paths = list(all_paths(level_reps(templates + ['/zz8'], lean=True)))
+        for fault in list(range(1, n_inst + 2)) + ['unregister']:
+            for when in ('first-compile', 'recompile'):
+                for repeat in (1, 2):
+                    idx += 1
+                    if idx % rec.nshards != rec.shard:
+                        continue
+                    w = World('std', idx % len(RES_MODES))
+                    for t in templates:
+                        w.add(rec, t)
+                    if when == 'recompile':
+                        run_batch(rec, w, paths)
+                        w.ops.append(['find', '/'])
+                        w.add(rec, '/zz8')
+                    for _ in range(repeat):
+                        out = w.faulty_find(paths[idx % len(paths)], fault)
+                        rec.count('fault.lookup-' + out.split(':')[0])
+                        if out == 'leaked-lock':
+                            rec.count('report.unattributed.lookup-blocks-on-leaked-compile-lock')
+                            rec.violation('lookup-blocks-on-leaked-compile-lock',
+                                          {'ops': [list(o) for o in w.ops], 'attributed_to': None})
+                    run_batch(rec, w, paths)
+                    rec.count('fault.scenarios')
+    rec.count('fault.done')
+
+
+# ---------------------------------------------------------------- a template matches its own text
+
+SELF_BODIES = ['status', 'a/b', 'a//b', 'a/', '', '{x}', '{x}/s', 's/{x:int}', 'v{y}-{w}/t', '{p:path}', 's/{p:rest}',
+               '{x}/{y:float(min=0)}/', 'ab/{z:int(2)}']
+
+
+def check_self_match(rec, lead, body, res_mode):
+    """Whatever the router takes the segments of a text to be, it has to take them the same way for a
+    template and for a request path: an accepted template, alone on a router, matches the path obtained
+    by writing a matching value in place of every field expression (leading slashes copied verbatim),
+    with exactly those values.  Judged without choosing a normalisation of leading slashes."""
+    template = lead + body
+    segs = body.split('/')
+    inst = '/'.join(seg_reps(x, False, True)[0] for x in segs)
+    path = lead + inst
+    w = World('std', res_mode)
+    out = w.add(rec, template)
+    rec.count('mon.self-match' if out == 'ok' else 'mon.self-match.template-refused')
+    if out != 'ok' or w.dead is not None:
+        return
+    ref = M.Model(M.CONVERTERS)                 # values per field: the single-slash reading of the same body
+    ref.add('/' + body, None)
+    want = ref.find('/' + inst)
+    try:
+        got = w.router.find(path)
+    except Exception as ex:  # noqa
+        got = Raised(ex)
+    rec.case(('self-match', template))
+    problem = None
+    if isinstance(got, Raised):
+        problem = 'find-raised'
+    elif got is None:
+        problem = 'accepted-template-does-not-match-its-own-text'
+    elif got[3] != template or want is None or norm_params(got[2]) != norm_params(want[2]):
+        problem = 'own-text-matched-with-other-values'
+    if problem:
+        rec.count('report.unattributed.' + problem)
+        rec.violation(problem, {'ops': [list(o) for o in w.ops], 'self_match': [lead, body, res_mode], 'path': path,
+                                'got': summary(got if got is None or isinstance(got, Raised) else (got[0], got[3], got[2])),
+                                'want': None if want is None else norm_params(want[2]), 'attributed_to': None})
+
+
+def self_match(rec):
+    idx = 0
+    for lead in ('/', '//', '///'):
+        for body in SELF_BODIES:
+            idx += 1
+            if idx % rec.nshards == rec.shard:
+                check_self_match(rec, lead, body, idx % len(RES_MODES))
+    rec.count('self-match.done')
+
+
 # ---------------------------------------------------------------- several routers in one process
 
 COHAB_T = ['/n/{v1:int}', '/m/{a1:int(2)}-{b1:veto}', '/h/{x1}', '/f/{g1:float}']
@@ -1433,6 +1616,8 @@ def run(rec):
     cohabitation(rec)
     refused_calls(rec)
     reentrant(rec)
+    compile_faults(rec)
+    self_match(rec)
     complete = exhaustive(rec)
     rec.exhaustive = bool(complete)
     if rec.shard == 0:
@@ -1453,6 +1638,11 @@ def run(rec):
     rec.floor('cohabitation.done', rec.nshards)
     rec.floor('refused-calls.done', rec.nshards)
     rec.floor('reentrant.done', rec.nshards)
+    rec.floor('fault.done', rec.nshards)
+    rec.floor('fault.scenarios', 40)
+    rec.floor('fault.lookup-raised', 40)
+    rec.floor('self-match.done', rec.nshards)
+    rec.floor('mon.self-match', 30)
     rec.floor('reentrant.in-flight-adds', 300)
     rec.floor('mon.nested.find', 50)
     rec.floor('refused-calls.scenarios', 200)
@@ -1488,6 +1678,10 @@ def run(rec):
 def replay(rec, w):
     wit = w['witness']
     rec.counters['keyed'] = 0
+    if 'self_match' in wit:
+        check_self_match(rec, *wit['self_match'])
+        rec.case(('replay', 'x'))
+        return
     ops = wit['ops']
     head = ops[0] if ops and ops[0][0] == 'world' else ['world', 'std', 0, []]
     world = World(head[1], head[2], head[3] if len(head) > 3 else None, head[4] if len(head) > 4 else False)
@@ -1503,6 +1697,11 @@ def replay(rec, w):
             fault = op[5] if len(op) > 5 else None
             out = world.add(rec, op[1], op[2], fault=fault)
             print('add_route(%r, compile=%r%s) -> %s' % (op[1], op[2], ', fault=%s' % fault if fault else '', out))
+        elif op[0] == 'faulty-find':
+            out = world.faulty_find(op[1], op[2])
+            print('find(%r) with a compile-time fault (%r) -> %s' % (op[1], op[2], out))
+            if out == 'leaked-lock':
+                rec.violation('lookup-blocks-on-leaked-compile-lock', {'ops': [list(o) for o in world.ops]})
         elif op[0] == 'nested':
             n0 = rec.counters.get('violations', 0)
             fired = run_nested(rec, world, op[1], op[2], op[3], op[4])
